@@ -367,11 +367,15 @@ void recipeStaged(RunState& rs) {
         HistOp one; one.op = "execute"; one.flags = unionFlags;
         doExecute(rs, *full, one, sc.isTaskBased(), "full");
     } else if (sc.variant == "topstaged") {
-        // reference: the same history with the consecutive top-tree calls merged into one call
+        // reference: the documented order -- first stage, ONE top-tree call with the union of the flags, then the remaining stages
         std::vector<HistOp> merged;
+        HistOp topAll; topAll.op = "top"; topAll.flags = 0;
+        for (const HistOp& op : sc.history) if (op.op == "top") topAll.flags |= op.flags;
+        bool placed = false;
         for (const HistOp& op : sc.history) {
-            if (op.op == "top" && !merged.empty() && merged.back().op == "top") merged.back().flags |= op.flags;
-            else merged.push_back(op);
+            if (op.op == "top") continue;
+            merged.push_back(op);
+            if (!placed) { merged.push_back(topAll); placed = true; }
         }
         runHistory(rs, *full, merged, sc.isTaskBased(), "full");
     }
